@@ -3,7 +3,6 @@ package c08
 import (
 	"pgregory.net/rapid"
 
-	"verifharness/internal/evid"
 	"verifharness/internal/gen"
 )
 
@@ -324,12 +323,6 @@ func genPair(t *rapid.T, maxLen int) pairCase {
 		}
 	}
 
-	// F10 (obikmer.Encode4mer panics on a read of exactly 3 symbols) belongs to
-	// property C19: while it is present such reads are kept out of the fast path.
-	if c.Fast && f10Present && (len(c.A) == 3 || len(c.B) == 3) {
-		c.Fast = false
-		evid.Excluded("F10_encode4mer_length3", 1)
-	}
 	return c
 }
 
